@@ -170,6 +170,8 @@ def sig(spec):
     t = spec["t"]
     if t == "leaf":
         return spec["name"]
+    if t == "save":
+        return "SaveStateToContext"
     if t in ("compose", "list"):
         return f"{t}[{','.join(sig(s) for s in spec['items'])}]"
     return f"{t}({sig(spec['item'])})"
@@ -186,7 +188,7 @@ def root_name(spec):
 def subtrees(spec):
     """direct children"""
     t = spec["t"]
-    if t == "leaf":
+    if t in ("leaf", "save"):
         return []
     if t in ("compose", "list"):
         return list(spec["items"])
